@@ -132,7 +132,7 @@ class Container(typing.Generic[Symbol]):
                     expression: Expression to be extracted and registered.
                 """
                 self.select(expression)
-                for table, factor in expression.factors.items():
+                for table, factor in dsl.Predicate.Factors.of(expression).items():
                     self[table].factors.add(factor)
 
         def __init__(self):
